@@ -271,6 +271,7 @@ class Sim:
         self.shape = []
         self.last_kind = {}
         self.seen_q_then_a = {}
+        self.handed = []  # (R object, S object, copy of R, copy of S, history at that time) handed out by earlier queries
 
     def bump(self, k, v=1):
         self.stats[k] = self.stats.get(k, 0) + v
@@ -353,7 +354,12 @@ class Sim:
         ap = self.nq.sim.clifford.apply_clifford_on_pauli
         for g in dp.generators(n) + extra:
             g = np.array(g, dtype=np.uint8)
-            out = ap(g, R, S)
+            try:
+                out = ap(g, R, S)
+            except Exception as e:
+                return f'apply_clifford_on_pauli({g.tolist()}, r, S) raised {type(e).__name__}: {e}'
+            if not (isinstance(out, np.ndarray) and out.shape == g.shape):
+                return f'apply_clifford_on_pauli returned {type(out).__name__} of shape {getattr(out, "shape", None)}'
             if not _close(dp.pauli_matrix(out), U.conj().T @ dp.pauli_matrix(g) @ U):
                 return f'P={g.tolist()} -> {out.tolist()} is not U^dagger P U'
         return True
@@ -388,6 +394,7 @@ class Sim:
         if st != 'ok':
             return False
         R, S = self.valid_tableau(val)
+        self.handed.append((val[0], val[1], R, S, list(self.cands[c][0].hist)))
         self.log.add('form', c, R, S)
         if R.max(initial=0) > 1 or S.max(initial=0) > 1 or not dp.is_symplectic(S):
             raise Violation('conjugation', 'to_symplectic_form', f'S is not a binary symplectic matrix: {S.tolist()}')
@@ -407,8 +414,25 @@ class Sim:
             except Exception as e:
                 return f'clifford_array_to_F2 raised {type(e).__name__}: {e}'
             return True if (np.array_equal(R, R3) and np.array_equal(S, S3)) else f'clifford_array_to_F2(U^dagger)={R3.tolist()},{S3.tolist()} != tableau {R.tolist()},{S.tolist()}'
-        if n <= 4:
+        if n <= 5:
             self.observe(c, 'from_unitary', 'clifford_array_to_F2', from_u)
+            # "converting any Clifford unitary to (r,S) reproduces its conjugation action": also convert V = L U^dagger for two
+            # layers L of local Cliffords (S^a H^b per qubit; they turn X/Z images into Y-rich strings) chosen from the tableau digest
+            lr = random.Random(int(trace.digest((R, S)), 16))
+            Ud = self.cands[c][0].U().conj().T
+            ap = self.nq.sim.clifford.apply_clifford_on_pauli
+            for _ in range(2):
+                L = dp.kron_all([np.linalg.matrix_power(dp.S, lr.randrange(4)) @ np.linalg.matrix_power(dp.H, lr.randrange(2)) for _ in range(n)])
+                V = L @ Ud
+                try:
+                    r3, S3 = self.nq.sim.clifford.clifford_array_to_F2(V)
+                    imgs = [ap(np.array(g, dtype=np.uint8), r3, S3) for g in dp.generators(n)]
+                except Exception as e:
+                    raise Violation('from_unitary', 'clifford_array_to_F2', f'{type(e).__name__}: {e} on a Clifford unitary of {n} qubits')
+                for g, out in zip(dp.generators(n), imgs):
+                    if not _close(dp.pauli_matrix(out), V @ dp.pauli_matrix(g) @ V.conj().T):
+                        raise Violation('from_unitary', 'clifford_array_to_F2', f'(r,S) extracted from a {n}-qubit Clifford unitary V maps P={g} to {out.tolist()}, which is not V P V^dagger')
+            self.bump('extra_unitary_conversions', 2)
         return True
 
     def common_width(self, c):
@@ -461,10 +485,17 @@ class Sim:
         if st != 'ok':
             return False
         for (P, Q), (a, b, PQ, ab) in zip(pairs, val):
+            for o in (a, b, PQ, ab):
+                if not (isinstance(o, np.ndarray) and o.dtype == np.uint8 and o.shape == (2 * n + 2,) and o.max() <= 1):
+                    raise Violation('automorphism', 'apply_pauli_F2', f'result {o!r} is not a uint8 F2 vector of length {2*n+2}')
             self.log.add('auto', c, a, b, PQ, ab)
             if not _close(dp.pauli_matrix(PQ), dp.pauli_matrix(P) @ dp.pauli_matrix(Q)):
                 raise Violation('automorphism', 'PauliOperator.__matmul__', f'{P.tolist()} @ {Q.tolist()} = {PQ.tolist()} is not the matrix product')
-            if not np.array_equal((PO(a) @ PO(b)).F2, ab) or not _close(dp.pauli_matrix(ab), dp.pauli_matrix(a) @ dp.pauli_matrix(b)):
+            try:
+                prod = (PO(a) @ PO(b)).F2
+            except Exception as e:
+                raise Violation('unexpected_exception', 'PauliOperator.__matmul__', f'{type(e).__name__}: {e}')
+            if not np.array_equal(prod, ab) or not _close(dp.pauli_matrix(ab), dp.pauli_matrix(a) @ dp.pauli_matrix(b)):
                 raise Violation('automorphism', 'apply_pauli_F2', f'f(P)f(Q) != f(PQ) for P={P.tolist()} Q={Q.tolist()}: {a.tolist()},{b.tolist()},{ab.tolist()}')
         return True
 
@@ -472,6 +503,8 @@ class Sim:
         st, val = self.call(world, op, lambda x: x.to_universal_circuit().to_unitary(), circ, 'to_universal_circuit')
         if st != 'ok':
             return False
+        if not isinstance(val, np.ndarray):
+            raise Violation('statevector', 'to_universal_circuit', f'to_unitary returned {type(val).__name__}')
         Ux = np.asarray(val)
         self.log.add('export', c, np.round(Ux, 9) + 0.0)
 
@@ -544,7 +577,18 @@ class Sim:
         self.bump('probe.unspecified_reject_accepted')
         return None
 
+    def check_handed_out(self):
+        for Ro, So, Rc, Sc, hist in self.handed:
+            if not (np.array_equal(Ro, Rc) and np.array_equal(So, Sc)):
+                raise Violation('result_stability', 'to_symplectic_form', f'the tableau returned by an earlier query (history {hist}) was rewritten in place by a later operation: it no longer describes the gates it was computed for')
+        if self.handed:
+            self.bump('handed_out_tableaux_rechecked', len(self.handed))
+
     def step(self, world, i, op):
+        self._step(world, i, op)
+        self.check_handed_out()
+
+    def _step(self, world, i, op):
         kind = op['op']
         if kind == 'wipe':
             world.cache_wipe()
@@ -661,6 +705,14 @@ def execute(plan, keep_events=False):
         except Violation as v:
             violation = {'oracle': v.oracle, 'api': v.api, 'op_index': i, 'detail': v.detail, 'op': plan['ops'][i]}
             sim.log.add('violation', v.oracle, v.api, i)
+        except Exception as e:
+            # safety net: an exception raised *inside numqi code* that escaped the per-call wrappers is the SUT's, not the harness's
+            import traceback
+            tb = traceback.extract_tb(e.__traceback__)
+            if not tb or '/numqi/' not in tb[-1].filename:
+                raise
+            violation = {'oracle': 'unexpected_exception', 'api': tb[-1].name, 'op_index': i, 'detail': f'{type(e).__name__}: {e} (raised in {tb[-1].filename.split("/numqi/")[-1]}:{tb[-1].lineno})', 'op': plan['ops'][i]}
+            sim.log.add('violation', 'unexpected_exception', tb[-1].name, i)
     sim.bump('ops', len(plan['ops']))
     res = {
         'digest': sim.log.hexdigest(),
